@@ -37,6 +37,7 @@ import (
 	"reduction.dev/reduction/dkv/recovery"
 	"reduction.dev/reduction/dkv/sst"
 	"reduction.dev/reduction/dkv/storage"
+	"reduction.dev/reduction/dkv/wal"
 	"reduction.dev/reduction/partitioning"
 	"reduction.dev/reduction/proto"
 	"reduction.dev/reduction/util/verifhook"
@@ -154,6 +155,8 @@ type world struct {
 	compQ    []*task
 	actFlush *task
 	actComp  *task
+	capF     int // how many flush tasks may be pending in the global queue before Enqueue blocks its caller (read from the code under test)
+	capC     int // the same for compaction tasks
 	arrivals chan *arrival
 	opening  *slot
 	nextDir  int
@@ -277,6 +280,12 @@ func (w *world) afterRotations(s *slot, k int) error {
 	}
 	return nil
 }
+
+// flushRoom / compRoom: how many tasks the harness lets wait in a queue before it runs tasks first. Never more than the queue of the
+// code under test accepts without blocking the caller of Enqueue (the harness holds the gate of the running task, so a blocked caller
+// would wait for ever), and never more than 3 (the bound the histories were generated with).
+func (w *world) flushRoom() int { return max(1, min(3, w.capF)) }
+func (w *world) compRoom() int  { return max(1, min(3, w.capC)) }
 
 // release lets task t run to its next point (or to its end) and waits for what must arrive.
 func (w *world) release(t *task, fail int) (handle *recovery.CheckpointHandle, err error) {
@@ -702,6 +711,65 @@ type handleObs struct {
 	LastSeq uint64
 	Tables  []fname
 	Missing []fname
+}
+
+// replayRotations predicts how often DB.Start rotates the memtable while it replays the WALs of the given handles (in the order
+// of the handles, each WAL after its own After, keys outside [lo,hi) skipped when hi > 0): the size rules of memtable.Put/Delete
+// and wal.Writer.Put/Delete (the ones of Model/Ckpt.v: 17+|k|+|v| per entry with a replaced entry subtracted, full when > MemTableSize;
+// 8+4+|k|+1[+4+|v|] bytes per operation, full when >= MaxWALSize). Only used to keep the harness from deadlocking itself; a wrong
+// prediction cannot hide or invent a difference.
+func (w *world) replayRotations(hs []*handleRec, lo, hi int) (rot int) {
+	defer func() { recover() }()
+	sizes := map[string]uint64{}
+	var mt, wb uint64
+	for _, h := range hs {
+		data, err := io.ReadAll(&storage.Cursor{File: w.root.Open(h.uri)})
+		if err != nil {
+			return rot
+		}
+		var doc struct {
+			Checkpoints []ckptDocJ `json:"checkpoints"`
+		}
+		if json.Unmarshal(data, &doc) != nil {
+			return rot
+		}
+		for _, d := range doc.Checkpoints {
+			if d.ID != h.id {
+				continue
+			}
+			for _, wl := range d.WALs {
+				rd := wal.NewReader(w.root, wal.NewHandle(w.root, wal.HandleDocument{URI: wl.URI, After: wl.After}))
+				for e, err := range rd.All() {
+					if err != nil {
+						return rot
+					}
+					k := e.Key()
+					if hi > 0 {
+						kg := 0
+						if len(k) >= 2 {
+							kg = int(k[0])*256 + int(k[1])
+						}
+						if kg < lo || kg >= hi {
+							continue
+						}
+					}
+					sz := uint64(17 + len(k))
+					wb += uint64(8 + 4 + len(k) + 1)
+					if !e.IsDelete() {
+						sz += uint64(len(e.Value()))
+						wb += uint64(4 + len(e.Value()))
+					}
+					mt += sz - sizes[string(k)]
+					sizes[string(k)] = sz
+					if wb >= w.walSize || mt > w.memSize {
+						rot++
+						sizes, mt, wb = map[string]uint64{}, 0, 0
+					}
+				}
+			}
+		}
+	}
+	return rot
 }
 
 func (w *world) observeHandles() []handleObs {
@@ -1173,6 +1241,10 @@ func (r *runner) drain(s *slot, max int, silent bool) error {
 			}
 			return nil
 		}
+		if c := r.w.actComp; t.kind == "flush" && t.point == "end" && c != nil && c.slot == s && len(r.w.compQ) >= r.w.capC {
+			// the flush task is about to enqueue its compaction and the compaction queue takes no more: the running compaction goes first
+			t = c
+		}
 		if err := r.stepTask(s, t, silent, 0); err != nil {
 			return err
 		}
@@ -1209,7 +1281,7 @@ func (r *runner) write(o opJ, del bool) error {
 	if err := r.drainOthers(s); err != nil {
 		return err
 	}
-	if len(w.flushQ) >= 3 || len(w.compQ) >= 3 {
+	if len(w.flushQ) >= w.flushRoom() || len(w.compQ) >= w.compRoom() {
 		if err := r.drain(s, 0, false); err != nil {
 			return err
 		}
@@ -1297,6 +1369,11 @@ func (r *runner) restore(o opJ) error {
 	h := hs[0]
 	if err := r.drainOthers(nil); err != nil {
 		return err
+	}
+	if w.replayRotations(hs, o.Lo, o.Hi) > w.capF+1 {
+		// Open would rotate more often during the replay than the flush queue takes while the harness parks the first flush task
+		// at its begin (1 running + capF pending): the opener would block in Enqueue for ever. Such a restore is not generated.
+		return nil
 	}
 	src := w.slots[h.slot]
 	dir := w.nextDir
@@ -1753,6 +1830,7 @@ func execute(c *hx.Case) (*hx.Result, error) {
 		nbWait: make(chan *nbCall, 16), nextDir: 1, closed: make(chan struct{})}
 	verifhook.SetTuning("dkv", dkv.VerifDBTuning{L0TableNumCompactionTrigger: pi("l0", 2), MaxSizeAmplificationPercent: pi("amp", 50),
 		SmallestLevelSize: int64(pi("sls", 120)), LevelSizeMultiplier: pi("mult", 2)})
+	w.capF, w.capC = dkv.VerifQueueLimits()
 	cur.Store(w)
 	verifhook.Set(hook)
 	r := &runner{w: w, tags: map[string]bool{}, ckptBusy: map[uint64]bool{}, workAfter: map[uint64]bool{}, lastCkpt: map[int][]uint64{}}
@@ -1832,7 +1910,7 @@ func execute(c *hx.Case) (*hx.Result, error) {
 			if t == nil {
 				continue
 			}
-			if t.kind == "flush" && t.point == "end" && len(w.compQ) >= 3 {
+			if t.kind == "flush" && t.point == "end" && len(w.compQ) >= w.compRoom() {
 				continue
 			}
 			r.noteWork(s)
